@@ -1,7 +1,7 @@
 """C10 Atmospheric composition is a valid mixture for every input."""
 import ast
 
-from sa.helpers import (mkflow, spec, code, one, calls, bind_call, param_env,
+from sa.helpers import (the_return, mkflow, spec, code, one, calls, bind_call, param_env,
                         fmt, atom_of, unparse, walk_no_nested, unalloc, call_kw)
 from sa.index import AnalysisError, ClassInfo
 from sa.algebra import RF, Slice
@@ -158,6 +158,17 @@ def _run(ix, R):
             why.append('initialize_profile(%s)' % [fmt(fl, a) for a in ip.args])
         if fl.events.index(ip) > fl.events.index(apps):
             why.append('profile read before it is initialised')
+        for e in (ip, apps):
+            if e.guards or len(e.loops) != 1:
+                why.append('%s runs conditionally (%s)' % (e.name, [g.text() for g in e.guards]))
+        if ip.recv_rf is None or not fl.tab.equal(ip.recv_rf, gas):
+            why.append('initialize_profile is called on %s' % (fmt(fl, ip.recv_rf) if ip.recv_rf is not None else None))
+        # the checked total is the builtin sum of exactly that list
+        tot_ev = [e for e in fl.of('assign') if not e.loops and not e.guards and atom_of(fl, e.value) is not None
+                  and atom_of(fl, e.value).head == 'call' and atom_of(fl, e.value).extra[0] == 'fn:sum']
+        if total is None or len(tot_ev) != 1 or not fl.tab.equal(tot_ev[0].value, total) or \
+                apps.recv_rf is None or not fl.tab.equal(atom_of(fl, tot_ev[0].value).args[0], apps.recv_rf):
+            why.append('the total that is checked is not sum(list of the appended profiles)')
         R.check('3.gasorder', 'EFF', site,
                 'each gas is initialised with (nlayers, T, P, z) and its mixProfile appended in the order of self._gases',
                 not why, key='; '.join(why), detail='; '.join(why), loc=f.loc(apps.node))
@@ -181,7 +192,16 @@ def _run(ix, R):
         vs = [e for e in fl.of('store') if fmt(fl, e.target) == 'self._mix_profile']
         okv = any('vstack' in fmt(fl, e.value) for e in vs)
         sup = [e for e in fl.of('call') if unparse(e.node.func) == 'super().initialize_chemistry']
-        R.check('3.store', 'EFF', site, 'the stacked profile is stored before the base class computes mu from it',
+        stack = [e for e in vs if 'vstack' in fmt(fl, e.value)]
+        lic = lambda x: x.early and g is not None and x.node is g.node      # only the validity check may stand in the way
+        okv = okv and len(stack) == 1 and fl.tab.equal(atom_of(fl, stack[0].value).args[0], s.value) and \
+            all(lic(x) or (x.rf is not None and fl.tab.equal(x.rf, spec(fl, 'len(x) > 0', {'x': s.value})))
+                for x in stack[0].guards) and \
+            len(sup) == 1 and all(lic(x) for x in sup[0].guards) and not sup[0].loops and \
+            all(lic(x) for x in s.guards) and not s.loops and \
+            [fmt(fl, a) for a in sup[0].args] == [fmt(fl, pe[k]) for k in ('N', 'T', 'P', 'z')]
+        R.check('3.store', 'EFF', site, 'the stacked profile (of the concatenated list) is stored before the base class, called '
+                'unconditionally with the same arguments, computes mu from it',
                 okv and sup and fl.events.index(vs[-1]) < fl.events.index(sup[0]),
                 key='stores %s' % [unparse(e.node) for e in vs], detail='stores %s' % [unparse(e.node) for e in vs],
                 loc=f.loc())
@@ -261,7 +281,7 @@ def _run(ix, R):
     with R.guard('3.mass', 'ARG', site, 'mass'):
         f = ix.func(site)
         fl = mkflow(ix, site)
-        r = one(fl.of('return'), 'return')
+        r = the_return(fl)
         pe = param_env(fl, f, ['m'])
         tgt = ix.resolve_name(ix.module('taurex/util/__init__.py'), 'get_molecular_weight') \
             if 'taurex/util/__init__.py' in ix.modules else None
